@@ -64,6 +64,9 @@ func main() {
 		if err != nil {
 			fatal("%v", err)
 		}
+		if bytes.Contains(src, []byte("//verif:noinstrument")) {
+			continue
+		}
 		out, fsites, err := instrumentFile(name, src, denseSet[name])
 		if err != nil {
 			fatal("%s: %v", name, err)
@@ -196,6 +199,11 @@ func instrumentFile(name string, src []byte, dense bool) ([]byte, []string, erro
 }
 
 func addImport(f *ast.File, name, path string) {
+	for _, im := range f.Imports {
+		if p, _ := strconv.Unquote(im.Path.Value); p == path {
+			return
+		}
+	}
 	spec := &ast.ImportSpec{Name: ast.NewIdent(name), Path: &ast.BasicLit{Kind: token.STRING, Value: strconv.Quote(path)}}
 	decl := &ast.GenDecl{Tok: token.IMPORT, Specs: []ast.Spec{spec}}
 	f.Decls = append([]ast.Decl{decl}, f.Decls...)
